@@ -696,7 +696,7 @@ def run(ctx):
     # flight state machine (spec/conv/Growth_TimeAtSample.tla; deviations are GROWTH-FINDINGs, not
     # violations of C05)
     from .. import lib_growth_timeatsample
-    lib_growth_timeatsample.run(ctx)
+    ctx.run_growth(lib_growth_timeatsample.run, 'lib_growth_timeatsample')
 
 
 META = {
